@@ -23,12 +23,13 @@ Definition dqm_log2_values_g (U ubc : Z) (zero : bool) : list (list Z) :=
        ++ (if gend_rest_guard U k then [gend_rest_coeff U k] else []))
   ++ (if zero then [[0; gend_log2_cz_value ubc]] else []).
 
-(* list(range(start, stop, step))[1:] : start + k*step for k = 1, 2, ... while below stop; here
-   stop <= 10*step, so k <= 9 *)
+(* list(range(start, stop, step))[1:] for step >= 1: start + k*step for k = 1, 2, ... while below stop
+   (k never needs to exceed stop - start) *)
+Definition zrange_tail (start stop step : Z) : list Z :=
+  filter (fun v => v <? stop) (map (fun k => start + Z.of_nat k * step) (seq 1 (Z.to_nat (stop - start)))).
+
 Definition log10_digit_values_g (U : Z) (j : nat) : list Z :=
-  let step := gend_log10_step (Z.of_nat j) in
-  let stop := gend_log10_stop U (Z.of_nat j) in
-  0 :: filter (fun v => v <? stop) (map (fun k => gend_log10_start + Z.of_nat k * step) (seq 1 9)).
+  0 :: zrange_tail gend_log10_start (gend_log10_stop U (Z.of_nat j)) (gend_log10_step (Z.of_nat j)).
 
 (* list(range(start, stop)) *)
 Definition linear_values_g (U : Z) : list Z :=
